@@ -236,6 +236,26 @@ fn gen_trace_in(r: &mut Rng, kind: PoolKind, n: usize, segmented_tls: bool, prob
             }
         }
     }
+    // frame-size extremes: one connection in ten has handshake segments that carry data (TCP Fast Open) of 1 byte
+    // up to a jumbo frame's worth, half of them with the IPv4 and TCP option areas filled to their maximum
+    for c in conns.iter_mut() {
+        if r.chance(1, 10) {
+            let n = *r.pick(&[1usize, 100, 1400, 8900, 9100, 20000]);
+            let maxed = r.chance(1, 2);
+            for st in c.steps.iter_mut().filter(|st| st.seg.flags & pkt::SYN != 0) {
+                st.seg.payload = r.bytes(n);
+                if maxed {
+                    if !v6 {
+                        st.seg.ip_opts = vec![0x01; 40];
+                    }
+                    while st.seg.tcp_opts.len() < 40 {
+                        st.seg.tcp_opts.push(0x01);
+                    }
+                    st.seg.tcp_opts.truncate(40);
+                }
+            }
+        }
+    }
     let lens: Vec<usize> = conns.iter().map(|c| c.steps.len()).collect();
     let mode = *r.pick(&[MergeMode::Uniform, MergeMode::RoundRobin, MergeMode::Bursts]);
     let order = conn::merge_order(r, &lens, mode);
